@@ -8,7 +8,7 @@ PROPERTY = "C06"
 def jobs(tier, seed):
     quick = tier == "quick"
     J = []
-    cfgs = ["L-gas", "V-O2"] if quick else ["L-gas", "L-none", "L-codesize", "V-O2", "V-none", "V-O3", "V-Os"]
+    cfgs = ["L-gas", "V-O2"] if quick else ["L-gas", "L-none", "V-O2", "V-O3"]
     for tid, src in F.c06_family(quick).items():
         for cfg in cfgs:
             J.append({"id": f"C06/G/source-semantics[{tid};{cfg}]", "fn": "vverif.contracts.source_sem:job_src", "args": ("c06." + tid, src, cfg), "functions": S.FUNCS + FUNCS, "engine": "GenVC"})
